@@ -208,7 +208,24 @@ BODIES = [b"", b"x", b"a=1&b=2", b"\r\n\r\n", b"\r\n\r\nGET / HTTP/1.0\r\nX: y\r
           b"\xc3\xa9", b"\xc3", b"line1\nline2\n", b"\x00" * 5, b"Content-Length: 3\r\n\r\nabc", b"  ", b"\xa0\x85"]
 
 
+W1, W2, W3, W4 = "ab z0", "\xe9\xf6\xa0\u0416", "\u20ac\u2713\u4e2d", "\U0001f389\U0001d11e\U0001f600\U00010000\U0010ffff"
+TEXT_TRAILERS = ["NEXT", " ", "\r\n", "\xe9\u20ac", "\U0001f389x", "\U0001f600\U0001f600\U0001f600\U0001f600"]
+
+
+def rand_text(rng):
+    """text over all four UTF-8 widths, with a run of 0..5 four-byte characters at the tail and a length around the
+    chunk arithmetic of read_text_body (1..16 bytes missing on the later reads)"""
+    pools = [W1, W1, W2, W3, W4]
+    head = "".join(rng.choice(rng.choice(pools)) for _ in range(rng.choice([0, 1, 2, 3, 5, 8])))
+    tail = "".join(rng.choice(W4) for _ in range(rng.choice([0, 1, 2, 3, 3, 4, 5])))
+    if rng.random() < 0.2:
+        tail += rng.choice(W1 + W2 + W3)
+    return head + tail
+
+
 def rand_body(rng, maxlen=40):
+    if rng.random() < 0.2:
+        return rand_text(rng).encode("utf-8")
     if rng.random() < 0.5:
         return rng.choice(BODIES)
     n = rng.randrange(0, maxlen)
@@ -478,7 +495,7 @@ def rt_request_text_oracle(E):
     Request = type(req)
     if body:
         # a text file that goes on after the request: Content-Length counts BYTES of the encoded text
-        for trailing in ("NEXT", " ", "\xe9\u20ac"):
+        for trailing in TEXT_TRAILERS:
             f = io.StringIO(t + trailing)
             try:
                 r2 = Request.from_file(f)
@@ -524,7 +541,8 @@ def rand_resp(rng, latin=True, textual=False):
     """(status, headerlist, body) with a declared length"""
     status = rng.choice(STATUSES if latin else [s for s in STATUSES if s.isascii()])
     if textual:
-        t = rng.choice(["", "x", "h\xe9llo w\xf6rld", "\r\n\r\nX: y\r\n", "a\nb", "€uro \U0001f600", "line\r\n", "  padded  ", "\xa0"])
+        t = rng.choice(["", "x", "h\xe9llo w\xf6rld", "\r\n\r\nX: y\r\n", "a\nb", "€uro \U0001f600", "line\r\n", "  padded  ", "\xa0",
+                        "done \U0001f389\U0001f389\U0001f389"]) if rng.random() < 0.5 else rand_text(rng)
         body = t.encode("utf-8")
     else:
         body = rand_body(rng)
@@ -617,7 +635,7 @@ def rt_response_str_oracle(status, hl, body):
     if s != exp:
         return ("response-roundtrip:str-form", "str(resp) is %r, expected %r" % (s, exp))
     if body:
-        for trailing in ("NEXT", "\r\n", "\xe9"):
+        for trailing in TEXT_TRAILERS:
             f = io.StringIO(s + trailing)
             try:
                 r2 = Response.from_file(f)
@@ -1442,7 +1460,8 @@ def resp_class(name):
     return _RESP_CLASSES[name]
 
 
-TEXTS = ["", "x", "h\xe9llo w\xf6rld", "\r\n\r\nX: y\r\n", "na\xefve \xa0", "a\nb", "  padded  ", "\xff\xfe"]
+TEXTS = ["", "x", "h\xe9llo w\xf6rld", "\r\n\r\nX: y\r\n", "na\xefve \xa0", "a\nb", "  padded  ", "\xff\xfe",
+         "done \U0001f389\U0001f389\U0001f389", "\U0001d11e\U0001d11e\U0001d11e\U0001d11e\U0001d11e", "\u20ac\U0001f600\U0001f600\U0001f600\U0001f600"]
 INT_STATUS = {200: "200 OK", 404: "404 Not Found", 201: "201 Created", 500: "500 Internal Server Error", 299: "299 Success",
               204: "204 No Content", 418: "418 I'm a teapot"}
 
@@ -1822,6 +1841,11 @@ def run_case(case):
         if case.get("textual"):
             return rt_response_str_oracle(st, hl, body)
         return None
+    if kind == "text-file":
+        try:
+            return text_file_case(case["what"], case["text"], case["trailing"])
+        except Exception as e:  # noqa
+            return ("text-file:message-boundary", "%s raised %s: %s" % (case["what"], exc_name(e), e))
     if kind == "response-config":
         return rt_response_config_oracle(case["cls"], case["status"], case["charset"], case["text"], [tuple(p) for p in case["headers"]])
     if kind == "outside":
@@ -2019,6 +2043,23 @@ def run(ctx):
         follow_up(ctx, "call_application", cases[i][2])
     for i in ctx.corr("send", IMPORTS, "c_send", scases, in_type="(bool * app)")[:8]:
         follow_up(ctx, "send", scases[i][2])
+
+    # ------------------------------------------------------------------ correspondence: util.read_text_body itself
+    import webob.util
+    if hasattr(webob.util, "read_text_body"):
+        rng = ctx.sub_rng("corr-read-text")
+        cases = []
+        sweep = [(len(t.encode("utf-8")), t + u) for t in text_width_sweep() for u in ("", "NEXT", "\U0001f389\U0001f389\U0001f389\U0001f389")]
+        gen = sweep[::ctx.scale(3, 1)] + [rand_read_text_case(rng) for _ in range(ctx.scale(300, 3000))]
+        for length, text in gen:
+            lit = cpair(copt(None if length is None else "(%d)%%Z" % length), cstr(text))
+            cases.append((lit, observe_read_text(length, text), {"kind": "text-file", "what": "request", "text": text, "trailing": "",
+                                                              "length": length}))
+        for i in ctx.corr("read_text_body", IMPORTS, "c_read_text_body", cases, in_type="(option Z * str)")[:5]:
+            c = cases[i][2]
+            ctx.broken.append("correspondence read_text_body: model and implementation disagree on length=%r text=%r" % (c["length"], c["text"]))
+    else:
+        ctx.broken.append("webob.util.read_text_body does not exist: the text-file reader the model mirrors is gone")
 
     # ------------------------------------------------------------------ correspondence: histories on one object
     rng = ctx.sub_rng("corr-history")
@@ -2320,14 +2361,86 @@ def pipelined_requests(envs):
     return pipelined_oracle(msgs, False)
 
 
+def text_width_sweep():
+    """every prefix x every run of four-byte characters at the tail: the later reads of read_text_body then have
+    1..20 bytes missing"""
+    out = []
+    for head in ["", "a", "\xe9", "\u20ac", "ab\u20ac", "\U0001f389a", "abcdefg", "\xe9\xe9\xe9\xe9\xe9"]:
+        for k in range(0, 6):
+            for a in ("\U0001f389", "\U0001d11e"):
+                out.append(head + a * k)
+                if k:
+                    out.append(head + a * k + "!")
+    return out
+
+
+def text_file_case(kind, t, trailing):
+    """a message whose body is the text t, read from a text file that goes on with `trailing`"""
+    from webob import Request, Response
+    body = t.encode("utf-8")
+    if kind == "request":
+        req = Request.blank("/t", method="POST", body=body, content_type="text/plain; charset=utf-8")
+        f = io.StringIO(req.as_text() + trailing)
+        r2 = Request.from_file(f)
+        cl = r2.content_length
+    else:
+        resp = Response(body=body, content_type="text/plain", charset="utf-8")
+        f = io.StringIO(str(resp) + trailing)
+        r2 = Response.from_file(f)
+        cl = r2.content_length
+    rest = f.read()
+    if r2.body != body or rest != trailing or cl != len(body):
+        return (K_TEXTLEN if False else "text-file:message-boundary",
+                "%s.from_file(StringIO(<message with body %r> + %r)): body %r, Content-Length %r, %r left in the file" % (
+                    kind, t, trailing, r2.body.decode("utf-8", "replace"), cl, rest))
+    # and the next message in the same file is then read correctly
+    if kind == "request":
+        f = io.StringIO(req.as_text() + "\r\n".join(["PUT /next HTTP/1.1", "Host: h", "Content-Length: 2", "", "ok"]))
+        Request.from_file(f)
+        try:
+            n = Request.from_file(f)
+            ok = (n.method, n.path, n.body) == ("PUT", "/next", b"ok")
+        except Exception:  # noqa
+            ok = False
+        if not ok:
+            return ("text-file:message-boundary", "the request that follows a body %r in the same text file is misread" % t)
+    return None
+
+
+def rand_read_text_case(rng):
+    """(length or None, file text) for the helper itself: exact lengths, lengths that end inside a character, short files,
+    negative and absent lengths"""
+    t = rand_text(rng)
+    u = rng.choice(["", "NEXT", "\U0001f389\U0001f389\U0001f389\U0001f389", "\xe9", " "])
+    n = len(t.encode("utf-8"))
+    r = rng.random()
+    if r < 0.55:
+        length = n
+    elif r < 0.8:
+        length = max(0, n + rng.choice([-3, -2, -1, 1, 2, 3, 5]))
+    elif r < 0.9:
+        length = n + len(u.encode("utf-8")) + rng.choice([0, 1, 7, 1000])
+    else:
+        length = rng.choice([None, -1, 0, 1])
+    return length, t + u
+
+
+def observe_read_text(length, s):
+    import webob.util
+    f = io.StringIO(s)
+    got = webob.util.read_text_body(f, length, "utf-8")
+    return [got, f.read()]
+
+
 def oracle_configurations(ctx):
     """configurations, argument shapes and the outside of the modelled value domain"""
     rng = ctx.sub_rng("oracle-config")
     n = ctx.scale(1200, 12000)
     for _ in range(n):
         cls_name = rng.choice([None, None, "latin1body", "plaindefaults"])
-        charset = None if cls_name == "latin1body" else rng.choice([None, "latin-1", "utf-8", "cp1252", "utf-16", "ascii", "ISO-8859-15"])
-        t = rng.choice(TEXTS)
+        charset = None if cls_name == "latin1body" else rng.choice([None, "latin-1", "utf-8", "cp1252", "utf-16", "ascii", "ISO-8859-15",
+                                                                     "utf-32", "utf-16-le"])
+        t = rng.choice(TEXTS) if rng.random() < 0.6 else rand_text(rng)
         code = rng.choice(sorted(INT_STATUS))
         hl0 = [(rng.choice(["X-Foo", "x-foo", "Set-Cookie", "ETag"]), rand_rvalue(rng, latin=True)) for _ in range(rng.randrange(3))]
         case = {"kind": "response-config", "cls": cls_name, "status": code, "charset": charset, "text": t, "headers": [list(p) for p in hl0]}
@@ -2344,6 +2457,27 @@ def oracle_configurations(ctx):
         res, case = outside_domain_script(rng)
         report(ctx, res, case, "outside-domain")
     ctx.oracle_count("outside-domain", m + ctx.scale(100, 1000), m)
+    cnt = 0
+    for t in text_width_sweep():
+        for kind in ("request", "response"):
+            for trailing in TEXT_TRAILERS:
+                if t:
+                    cnt += 1
+                    try:
+                        res = text_file_case(kind, t, trailing)
+                    except Exception as e:  # noqa
+                        res = ("text-file:message-boundary", "%s raised %s: %s" % (kind, exc_name(e), e))
+                    report(ctx, res, {"kind": "text-file", "what": kind, "text": t, "trailing": trailing}, "text-file-widths")
+    for _ in range(ctx.scale(600, 6000)):
+        t, trailing, kind = rand_text(rng), rng.choice(TEXT_TRAILERS), rng.choice(["request", "response"])
+        if t:
+            cnt += 1
+            try:
+                res = text_file_case(kind, t, trailing)
+            except Exception as e:  # noqa
+                res = ("text-file:message-boundary", "%s raised %s: %s" % (kind, exc_name(e), e))
+            report(ctx, res, {"kind": "text-file", "what": kind, "text": t, "trailing": trailing}, "text-file-widths")
+    ctx.oracle_count("text-file-widths", cnt, cnt)
     k = ctx.scale(80, 400)
     for _ in range(k):
         res, case = blank_shapes_oracle(rng)
@@ -2399,7 +2533,7 @@ def replay(ctx, path):
         res = api_request_case(case)
     elif kind == "order":
         res, _ = order_independence_oracle(fw.Ctx("C20", "quick", data.get("seed", 0)).sub_rng("oracle-history"), 12)
-    elif kind in ("request", "response", "script", "sub-history", "response-config", "outside", "blank", "request-reuse", "response-reuse", "pipelined-response",
+    elif kind in ("request", "response", "script", "sub-history", "response-config", "outside", "blank", "text-file", "request-reuse", "response-reuse", "pipelined-response",
                   "pipelined-request"):
         if kind == "request":
             case = dict(case, wellformed=True)
